@@ -144,24 +144,34 @@ func calculateNextQuota(
 		}
 	}
 
-	// The minimum limit quota is 1
-	if next < 1 {
-		next = 1
-	}
 	if next < total*MinimumQuotaPercent {
 		next = total * MinimumQuotaPercent
 	}
 
-	if next-current > remaining {
-		next = current + remaining
+	// A quota never grows by more than what is left of the global limit, and
+	// nothing is left when the limit is over-committed (e.g. after it was lowered).
+	available := math.Max(remaining, 0)
+	if next > current && next-current > available {
+		next = current + available
 	}
 
 	next = math.Ceil(next)
 
-	if flowControlType == proxyv1alpha1.TokenBucket {
-		burst = next / total * float64(upstreamTotal.LimitItemDetail.TokenBucket.Burst)
+	// A quota is never above the global limit and never below the minimum of 1.
+	if next > total {
+		next = total
 	}
-	burst = math.Ceil(burst)
+	if !(next >= 1) {
+		next = 1
+	}
+
+	if flowControlType == proxyv1alpha1.TokenBucket {
+		globalBurst := float64(upstreamTotal.LimitItemDetail.TokenBucket.Burst)
+		burst = math.Ceil(next / total * globalBurst)
+		if !(burst <= globalBurst) {
+			burst = globalBurst
+		}
+	}
 
 	// log_level >= 3：always logging
 	// log_level  = 2: probabilistic logging
